@@ -44,7 +44,7 @@ def _config(md, tier, varying_section=False):
 
     def build(me, rough, num_r, num_s, st_r, st_s, fl, bc):
         return dict(mesh=me, num=(num_r if rough else num_s), state=(st_r if rough else st_s), flux=fl, bcL=bc[0], bcR=bc[1])
-    return st.builds(build, gen.mesh_any(1, nmax), smooth, gen.num_robust(), gen.num_any(),
+    return st.builds(build, gen.mesh_any_or_big(1, nmax), smooth, gen.num_robust(), gen.num_any(),
                      gen.state_for(md, True, lnrange=1.5, machmax=2.0), gen.state_for(md, False, lnrange=1.0, machmax=1.5, smooth_amp=0.05),
                      st.sampled_from(cases.flux_names(md if md["name"] != "nozzle" else dict(name="euler1d"))), _bcpair(md))
 
